@@ -29,11 +29,12 @@ Labels ==
          LET m == MaskExp(ToSet(S.set), ToSet(S.clr)) IN
          (IF ToSet(E.names) # m THEN {"X04-mask-set-clear"} ELSE {})
          \cup (IF ToSet(E.isset) # m THEN {"X04-mask-isset"} ELSE {})
-         \cup (IF E.pretty # PrettyExp(m) \o (IF S.extra THEN <<"unknown(0x80000)">> ELSE <<>>) THEN {"X04-mask-pretty"} ELSE {})
-         \cup (IF ~S.extra /\ m # {} /\ (E.reparse_err # "" \/ ToSet(E.reparsed) # m) THEN {"X04-mask-roundtrip"} ELSE {})
+         \cup (IF S.extra # "b14" /\ E.pretty # PrettyExp(m) \o (IF S.extra = "b20" THEN <<"unknown(0x80000)">> ELSE <<>>) THEN {"X04-mask-pretty"} ELSE {})
+         \cup (IF S.extra = "b14" /\ E.pretty # PrettyExp(m) \o <<"unknown(0x2000)">> THEN {"X04-mask-pretty-sentinel"} ELSE {})
+         \cup (IF S.extra = "none" /\ m # {} /\ (E.reparse_err # "" \/ ToSet(E.reparsed) # m) THEN {"X04-mask-roundtrip"} ELSE {})
          \* the empty mask prints as "", which ParseEventMask refuses like any other empty list element (Meaning)
-         \cup (IF ~S.extra /\ m = {} /\ E.reparse_err = "" THEN {"X04-mask-empty-parsed"} ELSE {})
-         \cup (IF S.extra /\ E.reparse_err = "" THEN {"X04-mask-unknown-parsed"} ELSE {})
+         \cup (IF S.extra = "none" /\ m = {} /\ E.reparse_err = "" THEN {"X04-mask-empty-parsed"} ELSE {})
+         \cup (IF S.extra # "none" /\ E.reparse_err = "" THEN {"X04-mask-unknown-parsed"} ELSE {})
     [] S.kind = "cmp-mount" -> IF E.eq # MountEq(S.a, S.b) THEN {"X04-mount-cmp"} ELSE {}
     [] S.kind = "cmp-device" -> IF E.eq # DeviceEq(S.a, S.b) THEN {"X04-device-cmp"} ELSE {}
     [] S.kind = "hooks" ->
